@@ -47,7 +47,7 @@ class P:
     rule = ("for accepted programs (random trees, minimal parentheses, statements joined by `;` or juxtaposed): every gap "
             "between tokens (located with the tokenizer hook's spans) rewritten with whitespace strings over {SP,TAB,CR,LF} "
             "(empty gaps may become non-empty, non-empty stay non-empty), and every complete subexpression wrapped in 1, 2 or 5 "
-            "pairs of parentheses; oracle: the impl's AST of every variant equals its AST of the original. "
+            "pairs of parentheses (also with no blank around them, and with every removable blank removed); programs under registered operators (word and symbolic, one name in two roles) with every atom parenthesised; oracle: the impl's AST of every variant equals its AST of the original. "
             "Non-trivial = distinct (program, variant) with >= 3 tokens.")
     assumptions = ["names are not operator words", "D19 (juxtaposed statements: parenthesising the first token of a statement that follows a name) is a known finding"]
     trusted_extra = ["hook verif_hooks::tokenize for token boundaries"]
@@ -153,6 +153,50 @@ class P:
                         variants.append(("paren-tight", s[:a0] + "(" * k + s[a:e] + ")" * k + s[e1:]))
             line = "PARSE:%s " % hx(s) + " ".join("PARSE:" + hx(v) for _, v in variants)
             items.append((line, (s, variants)))
+        # programs under REGISTERED operators (word and symbolic; one name in two roles): every atom (name, number, string, boolean)
+        # wrapped in redundant parentheses, with and without blanks around them, and every gap rewritten
+        regsets = [
+            (["REGS:%s:0" % hx("---"), "REGI:%s:64:0:1:0" % hx("---")], ["100 --- 55", "a --- b --- c", "[a --- b, 1]", "a --- b + c"]),
+            (["REGI:%s:f:0:1:0" % hx("implies")], ["a implies b implies c", "a implies b || c", "x = a implies b"]),
+            (["REGP:%s:0" % hx("neg")], ["neg a + b", "neg a ++", "1 - neg a", "[neg a, neg 1]"]),
+            (["REGS:%s:0" % hx("!!")], ["a !! + b", "a ++ !!", "- a !!"]),
+            (["REGP:%s:0" % hx("~"), "REGI:%s:6e:0:0:0" % hx("~")], ["a ~ ~ b", "~ a ~ b", "a ~ b ~ c", "a + ~ b"]),
+            (["REGP:%s:0" % hx("++")], ["++ a", "++ a ++", "1 + ++ a"]),
+            (["REGI:%s:c8:0:0:0" % hx("within"), "REGP:%s:0" % hx("within")], ["a within b", "a not within b", "within a within b"]),
+            (["REGI:%s:6e:0:0:0" % hx("plus"), "REGS:%s:0" % hx("plus")], ["a plus b", "a plus", "a plus plus b"]),
+        ]
+        rb = []
+        for regs, texts in regsets:
+            for t_ in texts: rb.append((regs, t_))
+        lex2 = core.run_impl(["r%d %s LEX:%s PARSE:%s" % (i, " ".join(regs), hx(t_), hx(t_)) for i, (regs, t_) in enumerate(rb)])
+        for i, (regs, t_) in enumerate(rb):
+            outs = lex2.get("r%d" % i, "").split(" ")[len(regs):]
+            lt = astproto.parse_tokens(outs[0]) if outs else None
+            if not lt or lt[1] != "EOF" or len(outs) < 2 or outs[1].split(":")[0] != "OK": continue
+            toks = lt[0]
+            b = t_.encode("utf-8")
+            variants = []
+            for (k_, _tx, a, e) in toks:
+                if k_ not in ("ref", "num", "str", "bool"): continue
+                for k in (1, 3):
+                    v = (b[:a] + b"(" * k + b[a:e] + b")" * k + b[e:]).decode("utf-8")
+                    variants.append(("paren-atom", v))
+                    # no blank before or after the parentheses
+                    a0, e1 = a, e
+                    while a0 > 0 and b[a0 - 1:a0] == b" ": a0 -= 1
+                    while e1 < len(b) and b[e1:e1 + 1] == b" ": e1 += 1
+                    prev = [t for t in toks if t[3] == a0]
+                    if a0 == 0 or (prev and prev[0][0] in ("op", "delim", "comma", "semi")):
+                        variants.append(("paren-atom-tight", (b[:a0] + b"(" * k + b[a:e] + b")" * k + b[e1:]).decode("utf-8")))
+            bounds = [0] + [x for t in toks for x in (t[2], t[3])] + [len(b)]
+            parts = []
+            for g in range(0, len(bounds) - 1, 2):
+                gap = b[bounds[g]:bounds[g + 1]].decode("utf-8")
+                parts.append("".join(rng.choice(WS) for _ in range(rng.randint(1, 3))) if gap else gap)
+                if g + 2 < len(bounds): parts.append(b[bounds[g + 1]:bounds[g + 2]].decode("utf-8"))
+            variants.append(("ws-all", "".join(parts)))
+            line = " ".join(regs) + " PARSE:%s " % hx(t_) + " ".join("PARSE:" + hx(v) for _, v in variants)
+            items.append((line, (t_, variants, len(regs))))
         return flow.mk_cases("layout", items)
 
     def extra_coverage(self):
@@ -163,7 +207,7 @@ class P:
         return case.meta[0] if case.meta else case.line[:200]
 
     def classify(self, case, impl):
-        return impl.split(" ")[0].split(":")[0]
+        return impl.split(" ")[case.meta[2] if case.meta and len(case.meta) > 2 else 0].split(":")[0]
 
     def nontrivial(self, case, impl):
         return impl.count("(") > 2
@@ -179,6 +223,7 @@ class P:
 
     def oracle(self, case, impl):
         outs = impl.split(" ")
+        if case.meta and len(case.meta) > 2: outs = outs[case.meta[2]:]      # registrations come first
         base = outs[0].split(":")
         if base[0] != "OK":
             return "ok", ""          # not an accepted program: the property does not apply
